@@ -486,13 +486,24 @@ impl Retrier {
         while self.has_pending_appointments() {
             let locators = self.pending_appointments.lock().unwrap().clone();
             for locator in locators.into_iter() {
-                let appointment = self
-                    .wt_client
-                    .lock()
-                    .unwrap()
-                    .dbm
-                    .load_appointment(locator)
-                    .unwrap();
+                // Only data that is still pending for this tower is sent. The tower may have been abandoned and registered
+                // again while the retrier was waiting, in which case what it holds belongs to a record that is gone
+                // (and must not be delivered, nor deleted, on behalf of the new one).
+                let appointment = {
+                    let wt_client = self.wt_client.lock().unwrap();
+                    if wt_client.is_pending_appointment(tower_id, locator) {
+                        wt_client.dbm.load_appointment(locator)
+                    } else {
+                        None
+                    }
+                };
+                let appointment = if let Some(appointment) = appointment {
+                    appointment
+                } else {
+                    log::debug!("{locator} is not pending for {tower_id} anymore. Skipping it");
+                    self.pending_appointments.lock().unwrap().remove(&locator);
+                    continue;
+                };
 
                 match http::add_appointment(
                     tower_id,
@@ -506,14 +517,19 @@ impl Retrier {
                     Ok((slots, receipt)) => {
                         self.pending_appointments.lock().unwrap().remove(&locator);
                         let mut wt_client = self.wt_client.lock().unwrap();
-                        wt_client.add_appointment_receipt(
-                            tower_id,
-                            appointment.locator,
-                            slots,
-                            &receipt,
-                        );
-                        wt_client.remove_pending_appointment(tower_id, appointment.locator);
-                        log::debug!("Response verified and data stored in the database");
+                        // The tower may have been abandoned (and registered again) while the request was on its way
+                        if wt_client.is_pending_appointment(tower_id, locator) {
+                            wt_client.add_appointment_receipt(
+                                tower_id,
+                                appointment.locator,
+                                slots,
+                                &receipt,
+                            );
+                            wt_client.remove_pending_appointment(tower_id, appointment.locator);
+                            log::debug!("Response verified and data stored in the database");
+                        } else {
+                            log::debug!("{locator} is not pending for {tower_id} anymore. Ignoring the response");
+                        }
                     }
                     Err(e) => {
                         match e {
@@ -547,9 +563,13 @@ impl Retrier {
                                     // Add it first to invalid and remove it from pending later so a cascade delete is not triggered
                                     self.pending_appointments.lock().unwrap().remove(&locator);
                                     let mut wt_client = self.wt_client.lock().unwrap();
-                                    wt_client.add_invalid_appointment(tower_id, &appointment);
-                                    wt_client
-                                        .remove_pending_appointment(tower_id, appointment.locator);
+                                    if wt_client.is_pending_appointment(tower_id, locator) {
+                                        wt_client.add_invalid_appointment(tower_id, &appointment);
+                                        wt_client.remove_pending_appointment(
+                                            tower_id,
+                                            appointment.locator,
+                                        );
+                                    }
                                 }
                             },
                             AddAppointmentError::SignatureError(proof) => {
